@@ -5,7 +5,7 @@
                                                  -> verdict of Effects.judge under the current configuration: 0 ok, 1 net, 2 resolve, 3 write
      L <bytes>                                   -> 1 if Effects.loopback_bytes accepts the literal, else 0
      F <filedir> <file path of the URL | N>      -> EffectsSave.file_dict_plan: "-" (nothing written) or "O<open> R<src>:<dst>"
-     U <userDictPath>                            -> EffectsSave.user_dict_plan, same format
+     U <userDictPath>                            -> EffectsSave.user_dict_plan, same format ("-" = refused: the path names no file)
      G <home> <cwd> <cfgdir> <datadir> <u> <f> <s>  -> EffectsConfig.parse_render (Config::from_lsp_config's three paths): each
                                                     setting is A (absent), X (present, not a string) or S<hex> (S- = "");
                                                     answer "E" (Err) or "<user> <filedir> <stats> <filedir as the monitor is told it>" (hex)
@@ -50,7 +50,7 @@ let () =
        | ["E"; "M"; p] -> judge (EvMkdir (unhex p))
        | ["F"; d; "N"] -> print_endline (plan_line (file_dict_plan (unhex d) None))
        | ["F"; d; p] -> print_endline (plan_line (file_dict_plan (unhex d) (Some (unhex p))))
-       | ["U"; u] -> print_endline (plan_line (Some (user_dict_plan (unhex u))))
+       | ["U"; u] -> print_endline (plan_line (user_dict_plan (unhex u)))
        | ["G"; h; c0; cd; dd; u; f; s] ->
            print_endline (match parse_render (env h c0 cd dd) (sval u) (sval f) (sval s) with
              | None -> "E"
